@@ -25,6 +25,8 @@ def request_spec(draw, services, errors=True, weights=(1, 1, 1, 5, 100, 1000), u
         "weight": draw(st.sampled_from(list(weights))),
         "unit": draw(st.sampled_from(list(units))),
     }
+    if multi_wire and draw(st.integers(0, 3)) == 0:
+        spec["nested"] = True  # sub-requests in nested request contexts of their own, as a composite operation runs them
     if runner_tp:
         spec["runner_throughput"] = draw(st.sampled_from([0.5, 17, 1234.5]))
     return spec
@@ -86,6 +88,8 @@ def task_spec(draw, focus="timing"):
             spec["ramp_up"] = draw(st.sampled_from([r for r in [0.25, 0.5, 2, 4] if r <= wtp]))
             spec["global_offset"] = draw(st.integers(0, 3))
             spec["total_clients"] = spec["global_offset"] + clients + draw(st.integers(0, 3))
+            if draw(st.booleans()):
+                spec["via_allocator"] = draw(st.sampled_from([1, 3, -1, -4]))  # allocations from the real Allocator, a wider element nearby
         services = SERVICE_SLOWISH
         max_rate = 25
     elif mode == "finite-source":
